@@ -411,11 +411,15 @@ def build(rng, inp, gpick, stress=0, inject_pref=None, variant=0, fixed_old=None
                 before, upto = before + 2, upto + 2
             if upto > before and before >= lo_total and len(new) > before:
                 lim = rng.randint(max(before, lo_total), min(upto, len(new)) - 1)
+            elif len(new) > lo_total:
+                lim = rng.randint(lo_total, len(new) - 1)       # compressed download bigger than the prefix: any later byte
             sc["fault_item"] = i
-        elif f["k"] == "close" and 0 < len(new) <= 4096 and len(new) > lo_total and rng.random() < 0.5:
-            lim = rng.randint(lo_total, len(new) - 1)
-        if lim is not None and inject_pref != "wrap":
+        elif f["k"] == "close" and len(new) > lo_total:
+            lim = rng.randint(max(lo_total, len(new) - 4096), len(new) - 1)
+        if lim is not None and not (inject_pref == "wrap" and rng.random() < 0.5):
             inj = {"how": "rlimit", "limit": lim}
+        elif not new and f["k"] == "write":
+            inj = {"how": "unrealisable"}       # nothing is written: no byte can fail
         else:
             at = 1
             if f["k"] == "write":
@@ -677,25 +681,45 @@ def execute(base, sc):
     return obs
 
 
-def abstract_in(sc):
-    """the input record the trace module gets: faults injected through a byte limit are "anywrite"; damage of
-    unspecified consequence is remote = "any" """
+def took_effect(sc, obs):
+    """False when the injected fault evidently never happened: a hook / proxy that did not fire; a byte limit aimed at the
+    download's temporary file while the call never had one (an implementation may stream the download); a missing
+    temporary directory that nobody needed"""
+    inj = sc["inject"]
+    if inj["how"] in ("wrap", "hook"):
+        return bool(obs["fired"])
+    if inj["how"] == "natural":
+        return obs["outcome"] == "raised"
+    if inj["how"] == "rlimit" and sc["in"]["fault"]["k"] == "fetchwrite":
+        return any(s["t"] == "present" for s in obs["obs"])
+    return True
+
+
+def abstract_in(sc, obs):
+    """the input record the trace module gets.  fault.k = "anywrite": a byte limit was in force -- some write / flush /
+    close of the call failed, or none did (TLC finds out which); "maybe": the fault fault.c was aimed at an operation
+    the implementation may not perform (it happened or it did not); a hook / proxy that did not fire is no fault;
+    damage of unspecified consequence is remote = "any" """
     i = dict(sc["in"])
     how = sc["inject"]["how"]
     if how == "rlimit":
         i["fault"] = {"k": "anywrite", "i": 0}
+    elif how == "natural":
+        i["fault"] = {"k": "maybe", "i": 0, "c": dict(sc["in"]["fault"])}
+    elif how in ("hook", "wrap") and not obs["fired"]:
+        i["fault"] = {"k": "none", "i": 0}
     if sc.get("remote_kind") == "any":
         i["remote"] = "any"
     return i
 
 
 def trace_of(sc, obs):
-    return {"in": abstract_in(sc), "obs": obs["obs"], "out": {"out": obs["outcome"], "ino": obs["ino"]}}
+    return {"in": abstract_in(sc, obs), "obs": obs["obs"], "out": {"out": obs["outcome"], "ino": obs["ino"]}}
 
 
 def describe(sc):
     inj = sc["inject"]
-    how = {"none": "no fault", "hook": "audit hook fails %s" % inj.get("what"), "rlimit": "RLIMIT_FSIZE=%s" % inj.get("limit"),
+    how = {"none": "no fault", "unrealisable": "-", "hook": "audit hook fails %s" % inj.get("what"), "rlimit": "RLIMIT_FSIZE=%s" % inj.get("limit"),
            "wrap": "proxy fails %s #%s" % (inj.get("what"), inj.get("at")), "natural": inj.get("what")}[inj["how"]]
     if sc["entry"] == "replace_file":
         sf = sc["srcfail"]
@@ -713,9 +737,9 @@ def judge(case, sc, obs):
     """compare an observation with TLC's terminal state for the case -> (status, message)
     status: ok | violation | skipped | diag"""
     inj = sc["inject"]
-    if inj["how"] in ("wrap", "hook") and not obs["fired"]:
+    if not took_effect(sc, obs):
         if obs["outcome"] == "returned" and obs["loc"] == (case["in"]["newc"] if sc["entry"] != "download_gunzip_lines" else obs["loc"]):
-            return "skipped", "injected fault (%s %s) never fired: the code does not go through the wrapped call" % (inj["how"], inj.get("what"))
+            return "skipped", "injected fault (%s %s) never took effect: the code does not go through the operation that was to fail" % (inj["how"], inj.get("what", ""))
     msgs = []
     if obs["outcome"] != case["out"]:
         msgs.append("the call %s%s; specification: it must have %s" % (
@@ -725,9 +749,8 @@ def judge(case, sc, obs):
             {"old": "the old content", "new": "the complete new content", "part": "a PART of the new content", "other": "something else",
              "absent": "absent", "empty": "empty", "dir": "a directory"}[obs["loc"]],
             "%s bytes" % obs.get("size", "no"), {"old": "the old content", "new": "the new content", "absent": "absent", "empty": "an empty file", "dir": "the directory"}[case["loc"]]))
-    want_new = case["tmpn"] == "stale"
-    if obs["dotnew"] != want_new or (obs["dotnew"] and not obs.get("dotnew_stale")):
-        msgs.append("`local`.new %s afterwards; specification: %s" % ("exists" if obs["dotnew"] else "is gone", "the left-over of the earlier run is still there" if want_new else "no temporary file survives"))
+    if obs["dotnew"] and not obs.get("dotnew_stale"):
+        msgs.append("`local`.new exists afterwards (and is not the left-over of the earlier run); specification: no temporary file of the call survives")
     if obs["extra_entries"]:
         msgs.append("new entries next to `local` after the call: %r; specification: no temporary file survives" % obs["extra_entries"])
     if obs["tmp_left"]:
@@ -780,18 +803,24 @@ def replay_chunk(args):
     base, seed, tasks, gcases = args
     os.makedirs(base, exist_ok=True)
     out = []
+    done = []
     for idx, case, variant, stress in tasks:
+        before = list(done)
+        done.append((idx, variant, stress))
         rng = random.Random("x18-replay-%s-%s-%s" % (seed, idx, variant))
         sc = build(rng, case["in"], _gpicker(gcases, rng), stress=stress, variant=variant + idx,
                    inject_pref="wrap" if variant == 1 else None)
+        if sc["inject"]["how"] == "unrealisable":
+            out.append({"idx": idx, "variant": variant, "status": "unrealisable", "msg": "", "before": list(done)})
+            continue
         try:
             obs = execute(os.path.join(base, "w%d" % os.getpid()), sc)
         except RuntimeError as e:
             out.append({"idx": idx, "variant": variant, "status": "error", "msg": str(e), "sc": sc})
             continue
         status, msg = judge(case, sc, obs)
-        out.append({"idx": idx, "variant": variant, "status": status, "msg": msg, "sc": sc if status == "violation" else None,
-                    "trace": trace_of(sc, obs) if status != "skipped" else None, "summary": describe(sc), "exc": obs["exc"],
+        out.append({"idx": idx, "variant": variant, "status": status, "msg": msg, "sc": None, "before": before,
+                    "trace": trace_of(sc, obs), "summary": describe(sc), "exc": obs["exc"],
                     "inject": sc["inject"]["how"], "fn": sc["fn"], "container": sc["container"], "encoding": sc["encoding"],
                     "local_form": sc["local_form"], "url_form": sc["url_form"], "kw": sc["kw"], "events": obs["events"],
                     "mode_kept": obs.get("mode_kept"), "outcome": obs["outcome"], "size": obs.get("size", 0), "nobs": len(obs["obs"])})
@@ -819,24 +848,45 @@ def history(base, seed, hidx, inputs, gcases, ncalls, stress_every=4):
     local = os.path.join(ldir, NAME)
     known = None
     out = []
+    prev = {}
     for k in range(ncalls):
-        inp = dict(rng.choice(inputs))
+        cur = current_old0(local) if k > 0 else None
+        same = [i for i in inputs if i["old0"] == cur and i["newc"] != "old"] if cur in ("old", "empty", "absent") else []
+        keep = bool(same) and rng.random() < 0.6
+        again = [i for i in inputs if i["entry"] in prev and i["newc"] == "new" and not i["srcfail"] and i["remote"] == "ok"
+                 and i["old0"] in ("old", "absent", "empty")]
+        repeat = bool(again) and rng.random() < 0.3
+        if repeat:
+            keep = False
+        inp = dict(rng.choice(again if repeat else (same if keep else inputs)))
         stress = 0 if (k + hidx) % stress_every else rng.choice([1, 1, 2])
         # unspecified kinds of damage: the model may go either way
-        anyremote = inp["entry"] != "replace_file" and inp["remote"] == "ok" and inp["fault"]["k"] == "none" and rng.random() < 0.15
+        anyremote = not repeat and inp["entry"] != "replace_file" and inp["remote"] == "ok" and inp["fault"]["k"] == "none" and rng.random() < 0.15
         fixed = None
-        if k > 0:
-            cur = current_old0(local)
-            if cur == inp["old0"] and cur in ("old", "empty", "absent") and rng.random() < 0.7 and inp["newc"] != "old":
-                with_bytes = None
-                if cur != "absent":
-                    with open(local, "rb") as f:
-                        with_bytes = f.read()
-                fixed = ("keep", with_bytes)
-            else:
-                # the outside world steps in: the directory is set up afresh
-                shutil.rmtree(ldir, ignore_errors=True)
+        if keep:
+            with_bytes = None
+            if cur != "absent":
+                with open(local, "rb") as f:
+                    with_bytes = f.read()
+            fixed = ("keep", with_bytes)
+        elif k > 0:
+            # the outside world steps in: the directory is set up afresh
+            shutil.rmtree(ldir, ignore_errors=True)
         sc = build(rng, inp, pick, stress=stress, variant=rng.randrange(60), fixed_old=fixed)
+        if sc["inject"]["how"] == "unrealisable":
+            sc["inject"] = {"how": "none"}
+            sc["in"]["fault"] = {"k": "none", "i": 0}
+        p = prev.get(inp["entry"])
+        if repeat and p["new"] != sc["old"]:
+            # the SAME content is published again after the outside world changed `local`: nothing may be remembered
+            for key in ("lines", "container", "encoding", "enc_kw", "new", "gz", "explines", "gcase", "remote_kind"):
+                if key in p:
+                    sc[key] = p[key]
+            sc["in"]["nw"] = p["in"]["nw"]
+            if sc["in"]["fault"]["k"] in ("write", "close"):
+                sc["in"]["fault"] = {"k": "none", "i": 0}
+                sc["inject"] = {"how": "none"}
+            sc["repeat"] = True
         if anyremote:
             c = rng.choice([g for g in gcases if g["expect"] == "any" and not g["hascr"]])
             g = V.g_concretize(rng, c, 0)
@@ -845,6 +895,8 @@ def history(base, seed, hidx, inputs, gcases, ncalls, stress_every=4):
             sc["in"]["newc"] = "empty" if not g["content"] else "new"
             if sc["old"] is not None and sc["old"] == g["content"]:
                 sc["in"]["newc"] = "old" if sc["old"] else "empty"
+        elif inp["newc"] == "new" and not inp["srcfail"] and inp["remote"] == "ok":
+            prev[inp["entry"]] = sc
         if fixed is not None:
             sc["known"] = known
             if sc["stale"] is None and os.path.lexists(local + ".new"):
@@ -856,11 +908,11 @@ def history(base, seed, hidx, inputs, gcases, ncalls, stress_every=4):
         except RuntimeError as e:
             out.append({"call": k, "status": "error", "msg": str(e)})
             break
-        skipped = sc["inject"]["how"] in ("wrap", "hook") and not obs["fired"]
-        out.append({"call": k, "status": "skipped" if skipped else "ok", "summary": describe(sc), "trace": trace_of(sc, obs),
+        skipped = not took_effect(sc, obs)
+        out.append({"call": k, "status": "ok", "skipped": skipped, "summary": describe(sc), "trace": trace_of(sc, obs),
                     "outcome": obs["outcome"], "exc": obs["exc"], "loc": obs["loc"], "tmp_left": obs["tmp_left"], "extra": obs["extra_entries"],
                     "entry": sc["entry"], "inject": sc["inject"]["how"], "size": obs.get("size", 0),
-                    "bystanders_same": obs["bystanders_same"], "kept": fixed is not None})
+                    "bystanders_same": obs["bystanders_same"], "kept": fixed is not None, "repeat": bool(sc.get("repeat"))})
     shutil.rmtree(hbase, ignore_errors=True)
     return out
 
